@@ -265,8 +265,11 @@ func genCookie(r *gen.Rand, w *gen.Writer) string {
 		return gen.Pick(r, []string{"\x91\x80", "\x92\x80\x80", "\x93\x80\x80\x80", "\x91\x81\xa3key\xa1k", "\x92\x81\xa5level\x41\x80"})
 	case 1:
 		w.Count("cookie-huge-count")
-		return gen.Pick(r, []string{"\xdd\xff\xff\xff\xff", "\xdc\xff\xff", "\xdd\x21\x21\x21\x21", "\xdc\x21\x21\x80\x80",
-			"\xdc\xff\xff" + string(bytesOf(200, 0x80)), "\x9f", "\x9f\x80\x80", "\xdd\xff\xff\xff\xff\x80",
+		if r.Chance(1, 8) { // run in a child process with an address-space limit: kept rare
+			return gen.Pick(r, []string{"\xdd\xff\xff\xff\xff", "\xdd\x21\x21\x21\x21", "\xdd\xff\xff\xff\xff\x80", "\xdd\x2f\xff\xff\xff"})
+		}
+		return gen.Pick(r, []string{"\xdc\xff\xff", "\xdc\x21\x21\x80\x80", "\xdc\xff\xff\x80",
+			"\xdc\xff\xff" + string(bytesOf(200, 0x80)), "\x9f", "\x9f\x80\x80",
 			"\x91\xdf\xff\xff\xff\xff", "\x91\x81\xa1x\xdd\xff\xff\xff\xff", "\x91\x81\xa1x\xdf\xff\xff\xff\xff\xa1a"})
 	case 2:
 		w.Count("cookie-garbage")
